@@ -229,3 +229,14 @@ def param(body, i):
     if body.is_coroutine:
         return body.upvars.get(i)
     return body.debug.get(i + 1)
+
+
+def depends_on_var(o, term, name, depth=0):
+    """the origin term mentions variable `name`, looking through the initialisers of mutable locals (iterators, guards)"""
+    for s in subterms(term):
+        if isinstance(s, tuple) and s and s[0] == "var":
+            if s[1] == name or s[1].startswith(name + "."):
+                return True
+            if len(s) > 2 and depth < 3 and depends_on_var(o, o.init_of(s[2]), name, depth + 1):
+                return True
+    return False
